@@ -31,7 +31,7 @@ def _stmt_of(node):
 def fs_mutations(A: Analysis) -> List[Tuple[str, str, ast.Call]]:
     """(function fq, kind, call) for every filesystem-mutating call site of the core package."""
     out = []
-    for f in A.prog.functions.values():
+    for f in A.prog.scan_functions:
         if f.fq.startswith(CORE_EXCLUDE):
             continue
         for c in walk_local(f.node):
@@ -294,7 +294,7 @@ CWD1_TABLE = {
 
 def cwd_reads(A: Analysis):
     out = []
-    for f in A.prog.functions.values():
+    for f in A.prog.scan_functions:
         if f.fq.startswith(CORE_EXCLUDE):
             continue
         for c in walk_local(f.node):
@@ -398,7 +398,7 @@ def rule_cwd(A: Analysis, rep):
         else:
             rep.ok("CWD4", "rooted effect %s in %s" % (kind, fq.replace("conductor.", "")), c, "path class %s" % cls)
     # subprocess cwd=
-    for f in A.prog.functions.values():
+    for f in A.prog.scan_functions:
         if f.fq not in reach:
             continue
         for c in walk_local(f.node):
